@@ -123,8 +123,30 @@ func (fs *FS) mountPoint(path string) (_ hackpadfs.FS, mountPoint, subPath strin
 
 // Open implements hackpadfs.FS
 func (fs *FS) Open(name string) (hackpadfs.File, error) {
-	mountFS, subPath := fs.Mount(name)
-	return mountFS.Open(subPath)
+	mountFS, mountPoint, subPath := fs.mountPoint(name)
+	file, err := mountFS.Open(subPath)
+	return file, restoreErrPath(err, mountPoint)
+}
+
+// restoreErrPath translates the paths of an error returned by the FS mounted at 'mountPoint' back into this FS's namespace.
+func restoreErrPath(err error, mountPoint string) error {
+	if err == nil || mountPoint == "." {
+		return err
+	}
+	restore := func(p string) string {
+		if p == "." {
+			return mountPoint
+		}
+		return mountPoint + "/" + p
+	}
+	switch err := err.(type) {
+	case *hackpadfs.PathError:
+		return &hackpadfs.PathError{Op: err.Op, Path: restore(err.Path), Err: err.Err}
+	case *hackpadfs.LinkError:
+		return &hackpadfs.LinkError{Op: err.Op, Old: restore(err.Old), New: restore(err.New), Err: err.Err}
+	default:
+		return err
+	}
 }
 
 // Point represents a mount point, including any relevant metadata
@@ -159,7 +181,7 @@ func (fs *FS) Rename(oldname, newname string) error {
 	}
 
 	if oldPoint == newPoint {
-		return hackpadfs.Rename(oldMount, oldSubPath, newSubPath)
+		return restoreErrPath(hackpadfs.Rename(oldMount, oldSubPath, newSubPath), oldPoint)
 	}
 	if oldInfo.IsDir() {
 		// TODO support renaming directories
